@@ -25,6 +25,7 @@ type Rec struct {
 	viol       *Violation
 	Detail     map[string]interface{} // decoded description of the run (set outside tasks)
 	HarnessErr string
+	Extra      map[string]map[string]int64 // named counter groups (merged by the worker: keys starting with "expected"/"records" by max, others summed)
 	EvHash     [2]uint64
 	SimNS      int64
 	Steps      int64
